@@ -667,7 +667,7 @@ class ParserBinary(ParserBase):
                 try:
                     item, parsed_length = item_class.parse_immutable(unparsed_bytes)
                     break
-                except InvalidValue:
+                except (InvalidValue, InvalidType):
                     pass
             else:
                 if fallback_class is not None:
